@@ -82,3 +82,14 @@ Theorem C04_launch_after_parameters : forall W s j h fuel root explicit ds,
   forall k, reachv h (VRef root) k \/ In k explicit -> st (jobs s k) = DONE.
 Proof. exact Sched_live.launch_after_parameters. Qed.
 Print Assumptions C04_launch_after_parameters.
+
+(* the literal test `if self.task and not self.loaded` of the unchanged tree (`blind`: the mark of a task
+   object that evaluates to False is not seen): a submitted task whose truth value is False contributes no
+   dependency, although it is reachable and the `is not None` walk collects it *)
+Theorem C04_deps_exact_falsy_task_refuted : exists h falsy root fuel,
+  marks_ok h /\ n_sub (get h root) = None /\
+  collect (blind falsy h) fuel root [] = Some [] /\ reachv h (VRef root) 0%nat /\
+  collect h fuel root [] = Some [0%nat].
+Proof. exact deps_exact_falsy_task_refuted. Qed.
+Print Assumptions C04_deps_exact_falsy_task_refuted.
+
